@@ -697,7 +697,13 @@ class QvmCpu:
         if len(value) == 0:
             self.trap(TrapCode.INVALID_OPERAND_VALUE,
                       desc='ASC does not accept empty strings')
-        self.push(CellType.INTEGER, ord(value[0]))
+        # the inverse of CHR$: the code of the character in code page
+        # 437 (characters outside it keep their code point)
+        try:
+            code = value[0].encode('cp437')[0]
+        except UnicodeEncodeError:
+            code = ord(value[0])
+        self.push(CellType.INTEGER, code)
 
     def _exec_call(self, target):
         self.push(CellType.LONG, self.pc)
